@@ -99,7 +99,7 @@ func verifyNode(u *Universe, n *art.VerifNode, keys []skey, depth int, leaves *i
 		if !bytes.Equal(n.Key, keys[0].k) {
 			return fmt.Errorf("%s: leaf of %s holds stored key bytes %x, expected %x", where, u.KeyStr[keys[0].cls], n.Key, keys[0].k)
 		}
-		if v := valueInt(n.Value); v != keys[0].val {
+		if v := valueInt(n.Value); v != -1 && v != keys[0].val { // -1: not an int-valued tree (C18 value types are compared through the API)
 			return fmt.Errorf("%s: leaf of %s holds value %d, expected %d", where, u.KeyStr[keys[0].cls], v, keys[0].val)
 		}
 		*leaves++
